@@ -136,6 +136,11 @@ def run(ctx, tier):
     results += c02.alternate_rule(ctx, rule='C04.alternate')
     results += c09.snapshot_source(ctx, rule='C04.snapshot-source')
     results += c03.snapshot_fixed(ctx, rule='C04.snapshot-fixed')
+    results += c03.snapshot_private(ctx, rule='C04.snapshot-private')
+    # pages an open reader can still reach stay pending: only a writer's begin moves them on, and nothing else rewrites the shared list
+    import c06
+    results += c06.shared_freelist(ctx, rule='C04.shared-freelist')
+    results += c02.cow_free_set(ctx, rule='C04.cow.free-set')
     return dict(
         results=results, stats=dict(ctx.stats),
         explanation=(
